@@ -22,6 +22,9 @@ EXPLANATION = (
 EXPLANATION += (
     " " + "R8: the per-read cursor into the sorted variant list (both the reference and the no-reference branch of _alignments_to_reads) only passes entries whose position is strictly smaller than reference_start, and the cursor is what the branch's detector starts from."
 )
+EXPLANATION += (
+    " " + 'R11: in the reference-free walker an operation is matched against the variants that start in the reference it consumes -- [ref_pos, ref_pos + length) for M/=/X/D and only the insertion point for I (read per operator from the definitions of the window end that reach the queueing loop).'
+)
 NOT_DECIDED = "That the edit distances favour the right allele (C19 / value level) and the allele-progress arithmetic of _detect_alleles_match/insertion/deletion."
 ASSUMPTIONS = ["pysam cigartuples use the codes MIDNSHP=X -> 0..8"]
 
@@ -684,6 +687,38 @@ def r6(ctx):
                 # the query offsets kept by _detect_alleles count soft-clipped bases: only query_sequence is indexed that way
                 ok = False
                 detail = "the read base is taken from %s, but the query offsets are offsets into bam_read.query_sequence (soft clips included)" % u(q_.value)
+            # the index is CURRENT where the bases are compared: a local that holds it is computed inside the innermost loop
+            # around the comparison if that loop advances the progress it is computed from
+            lp_ = c_
+            while lp_ is not None and not isinstance(lp_, (ast.For, ast.While)):
+                lp_ = getattr(lp_, "parent", None)
+            # (Decided for the insertion handler only.  There the empty reference allele of an insertion needs no evidence and
+            # stays resolved when the inserted allele fails on a stale index, so a read carrying the insertion is recorded with
+            # the reference allele.  In the match handler a stale index can only make alleles FAIL -- every allele with match
+            # bases is held to the same read base, alleles without match bases fail on an M operation anyway -- and `no
+            # allele` is what C06 allows; the current _detect_alleles_match does compute its index once per call, see
+            # DESIGN 11.7.)
+            if ok and lp_ is not None and name == "_detect_alleles_insertion":
+                inside = {id(x) for x in ast.walk(lp_)}
+                moved = {u(x.target) for x in ast.walk(lp_) if isinstance(x, ast.AugAssign)} | {u(t_) for x in ast.walk(lp_) if isinstance(x, ast.Assign) for t_ in x.targets}
+                for side in (q_.slice, v_.slice):
+                    pass
+                orig = [x for x in (c_.left, c_.comparators[0])]
+                names_ = {n_.id for x in orig for n_ in ast.walk(x) if isinstance(n_, ast.Name)}
+                todo_, seen_ = list(names_), set()
+                while todo_:
+                    nm = todo_.pop()
+                    if nm in seen_:
+                        continue
+                    seen_.add(nm)
+                    for s_, v in util.assignments_to(fi.node, nm):
+                        if not isinstance(v, ast.AST):
+                            continue
+                        todo_.extend(n_.id for n_ in ast.walk(v) if isinstance(n_, ast.Name))
+                        reads = {u(x) for x in ast.walk(v) if isinstance(x, (ast.Attribute, ast.Name))}
+                        if id(s_) not in inside and (reads & moved):
+                            ok = False
+                            detail = "`%s = %s` is computed before the loop that advances %s and read inside it: every step compares the base the loop started at" % (nm, u(v)[:60], ", ".join(sorted(reads & moved)))
             ctx.ob(fi.qual, "allele-and-query-advance-in-lock-step", ok, fi.loc(c_), "allele base [matched + inserted] is compared with query base [query_start + matched + inserted]" if ok else "allele and query are not indexed by the same progress (%s): a read carrying the allele is compared against the wrong allele characters" % detail)
         sq = util.single_def(fi.node, "allele_seq")
         ok = sq is not None and u(sq) == "variant.get_allele(i)"
@@ -914,6 +949,81 @@ def r10(ctx):
         ctx.ob(gr.qual, "reads-grouped-per-file", ok, gr.loc(keys[0]), "alignments are grouped by (source_id, name, sample_id)" if ok else "the grouping key %s lacks %s: equally named reads of different input files are merged into one read that carries alleles of variants it does not overlap" % (u(keys[0]), sorted({"source_id", "name", "sample_id"} - attrs)))
 
 
+def r11(ctx):
+    """Reference-free walker: the variants an operation is matched against are those that START in the stretch of reference the
+    operation consumes -- [ref_pos, ref_pos + length) for M/=/X/D, and only the insertion point itself for I, which consumes
+    none.  With the window [ref_pos, ref_pos + length) for an I operation, an insertion variant up to length-1 bases to the
+    right of an UNRELATED insertion is compared with the tail of that insertion's bases, and a read that carries the reference
+    allele there is recorded with the inserted allele."""
+    fi = ctx.func(VP + "._detect_alleles")
+    cfg = ctx.cfg(fi)
+    qloops = [n for n in walk_function(fi.node) if isinstance(n, ast.While) and any(isinstance(c, ast.Call) and isinstance(c.func, ast.Attribute) and c.func.attr == "append" and u(c.func.value) == "vqueue" for c in ast.walk(n))]
+    # the outermost such loop is the walk over the CIGAR operations, the innermost the queueing loop
+    qloops = [n for n in qloops if not any(m is not n and m in list(ast.walk(n)) for m in qloops)]
+    if len(qloops) != 1:
+        ctx.ob(fi.qual, "queue-window-is-the-consumed-reference", None, fi.loc(), "queueing loop (vqueue.append) not found in _detect_alleles")
+        return
+    ql = qloops[0]
+    brk = [n for n in ast.walk(ql) if isinstance(n, ast.If) and any(isinstance(x, ast.Break) for x in n.body)]
+    bound = None
+    for b in brk:
+        for t, pol in atoms(b.test, True):
+            # var_pos >= BOUND, canonical form `var_pos < BOUND` negated
+            if pol is False and t.startswith("var_pos < "):
+                bound = t[len("var_pos < "):]
+    if bound is None:
+        ctx.ob(fi.qual, "queue-window-is-the-consumed-reference", None, fi.loc(ql), "cannot read where the queueing loop stops")
+        return
+    try:
+        be = ast.parse(bound, mode="eval").body
+    except SyntaxError:
+        be = None
+    split_defs = None
+    if isinstance(be, ast.Name):
+        # the definitions of the bound that reach the queueing loop (one, or one per branch of a test on the operation)
+        qn = cfg.node_of(ql)
+        alld = [(s_, v_) for s_, v_ in util.assignments_to(fi.node, be.id)]
+        dn = {cfg.node_of(s_): (s_, v_) for s_, v_ in alld}
+        reach = [(s_, v_) for n_, (s_, v_) in dn.items() if cfg.find_path(n_, qn, avoid_nodes=[m_ for m_ in dn if m_ != n_] + [qn]) is not None or any(qn == x_ for x_ in cfg.g.successors(n_))]
+        reach = [(s_, v_) for s_, v_ in reach if cfg.find_path(cfg.node_of(s_), qn, avoid_nodes=[m_ for m_ in dn if m_ != cfg.node_of(s_)]) is not None]
+        if len(reach) == 1 and isinstance(reach[0][1], ast.AST):
+            be = reach[0][1]
+        elif len(reach) == 2 and all(isinstance(v_, ast.AST) for s_, v_ in reach):
+            base = guard_atoms(cfg, qn)
+            tagged = {}
+            for s_, v_ in reach:
+                ga_ = guard_atoms(cfg, cfg.node_of(s_)) - base
+                if ("1 == cigar_op", True) in ga_:
+                    tagged["ins"] = v_
+                elif ("1 == cigar_op", False) in ga_:
+                    tagged["other"] = v_
+            if set(tagged) == {"ins", "other"}:
+                split_defs = (linear(tagged["ins"]), linear(tagged["other"]))
+                be = ast.IfExp(test=ast.parse("cigar_op == 1", mode="eval").body, body=tagged["ins"], orelse=tagged["other"])
+            else:
+                be = None
+        else:
+            be = None
+    def per_op(e):
+        if isinstance(e, ast.IfExp):
+            at = atoms(e.test, True)
+            if at == {("1 == cigar_op", True)}:
+                return linear(e.body), linear(e.orelse)
+            if at == {("1 == cigar_op", False)}:
+                return linear(e.orelse), linear(e.body)
+            return None
+        return (linear(e), linear(e)) if e is not None else None
+    po = per_op(be)
+    if po is None or po[0] is None or po[1] is None:
+        ctx.ob(fi.qual, "queue-window-is-the-consumed-reference", None, fi.loc(ql), "cannot read the end of the queueing window (`%s`)" % (u(be) if be is not None else bound))
+        return
+    ins, other = po
+    ok_other = other == {"ref_pos": 1, "length": 1}
+    ok_ins = ins in ({"ref_pos": 1, "": 1},)
+    ok = ok_other and ok_ins
+    ctx.ob(fi.qual, "queue-window-is-the-consumed-reference", ok, fi.loc(ql), "an operation is matched against the variants that start in the reference it consumes (an insertion: only at the insertion point)" if ok else ("for an I operation the queueing window ends at %s: insertion variants up to length - 1 bases right of an unrelated insertion are compared with that insertion's bases, and a read carrying the reference allele is recorded with the inserted one" % u(be) if ok_other else "the queueing window ends at %s, not at ref_pos + length" % u(be)))
+
+
 RULES = [
     ("C06.R1", "CIGAR consumption tables of the three walkers vs. SAM", r1),
     ("C06.R2", "unknown operators are rejected", r2),
@@ -925,7 +1035,8 @@ RULES = [
     ("C06.R8", "variant cursor skips only variants strictly left of the read", r8),
     ("C06.R9", "reference-free walker passes variants left of ref_pos before queueing", r9),
     ("C06.R10", "memo tables keyed consistently; reads grouped per input file", r10),
+    ("C06.R11", "reference-free walker: an operation is matched against the variants starting in the reference it consumes", r11),
 ]
 # instance floors: about 60% of the instances confirmed by hand on the reference tree -- a rule that suddenly matches far fewer
 # sites fails the run (exit 2); a clean-up that merges two sites into one does not
-FLOORS = {"C06.R1": 16, "C06.R2": 3, "C06.R3": 5, "C06.R4": 7, "C06.R5": 6, "C06.R6": 2, "C06.R7": 2, "C06.R8": 2, "C06.R9": 2, "C06.R10": 3}
+FLOORS = {"C06.R1": 16, "C06.R2": 3, "C06.R3": 5, "C06.R4": 7, "C06.R5": 6, "C06.R6": 2, "C06.R7": 2, "C06.R8": 2, "C06.R9": 2, "C06.R10": 3, "C06.R11": 1}
